@@ -57,14 +57,14 @@ ASSUMPTIONS = [
     "qutrits into four qubits for states and POVMs in the thorough tier only",
 ]
 BOUNDS = {
-    "quick": "states, POVMs: 2-3 subsystems all dims in {2,3}, 4 subsystems with at most one qutrit, all name permutations, "
+    "quick": "states, POVMs: 2-3 subsystems all dims in {2,3}, 4 subsystems with at most one qutrit (POVMs: 4 qubits), all name permutations, "
              "all binary groupings, varargs/list/mixed call forms; gates/measurement processes: 2 subsystems (2,2),(2,3),(3,2) "
              "all four type pairs, 3 qubits for the type patterns GGG MGM GMM MMM; ensembles: 2 subsystems all, 3 subsystems "
              "dims (2,2,2),(2,3,2) all 7 type patterns; bases: 2 factors over 7 bases, 3 factors over 4, 4 factors over 2, dense "
              "and sparse classes; named-alphabet ordered pairs (gate/mprocess partners limited for qubit x qutrit); joint "
              "factor x single factor in 3 interleavings; embedding of every 1-qutrit catalogue and alphabet object with "
              "statistics against all states x POVMs and two-step chains",
-    "thorough": "as quick plus: states on 4 subsystems with two qutrits, Hermitian-basis variant on 3 subsystems, qutrit x "
+    "thorough": "as quick plus: states on 4 subsystems with two qutrits, POVMs on 4 subsystems with one qutrit, Hermitian-basis variant on 3 subsystems, qutrit x "
                 "qutrit channels, all 8 three-qubit channel type patterns with the flat call forms, ensembles on 3 subsystems "
                 "of all dims and on 4 qubits, bases 3 factors over 6 / 4 factors over 3, all named gate pairs for qubit x "
                 "qutrit and limited partners for qutrit x qutrit, joint factors on two qutrits, 2-qutrit -> 4-qubit embedding "
@@ -1155,7 +1155,8 @@ def families(tier, seed):
     fams = []
     max_q4 = 1 if quick else 2
     for name, ch in (("state", "S"), ("povm", "P")):
-        mq = max_q4 if ch == "S" else 1     # POVMs: the operator permutation is the states' one; outcome lists do not depend on dims
+        # POVMs: the operator permutation is the states' one and the outcome-list permutation does not depend on dims
+        mq = max_q4 if ch == "S" else (0 if quick else 1)
         cases = arrangements({2: [ch * 2], 3: [ch * 3], 4: [ch * 4]}, lambda n, dims: n < 4 or n_qutrits(dims) <= mq)
         cases += arrangements({2: [ch * 2]} if quick else {2: [ch * 2], 3: [ch * 3]}, lambda n, dims: True, bvs=(1,))
         cases.sort(key=lambda c: (len(c["dims"]), n_qutrits(c["dims"])))
